@@ -117,8 +117,21 @@ def run(ctx, repo, tier):
             for an, av in c.class_attrs.items():
                 ctx.instance("IDEMP")
                 if isinstance(av, (ast.List, ast.Dict, ast.Set)):
-                    ctx.violate("IDEMP", "C08.idemp.classattr", "class-level mutable container: state shared between all objects", f"{m.relpath}:{c.name}",
-                                f"{an} = {src(av)[:60]}", witness="mutable class attribute")
+                    # a constant table (never written after its definition) is not state; it becomes state when some method of the
+                    # module stores into it / appends to it
+                    MUT = ("append", "extend", "insert", "add", "update", "setdefault", "pop", "popitem", "remove", "discard", "clear", "sort", "reverse")
+                    def _is_attr(e_):
+                        return isinstance(e_, ast.Attribute) and e_.attr == an and isinstance(e_.value, ast.Name) and e_.value.id in ("self", "cls", c.name)
+                    writes = [n_ for n_ in ast.walk(m.tree) if
+                              (isinstance(n_, (ast.Assign, ast.AugAssign)) and any(isinstance(t_, ast.Subscript) and _is_attr(t_.value)
+                                                                                 for t_ in (n_.targets if isinstance(n_, ast.Assign) else [n_.target]))) or
+                              (isinstance(n_, ast.AugAssign) and _is_attr(n_.target)) or
+                              (isinstance(n_, ast.Call) and isinstance(n_.func, ast.Attribute) and n_.func.attr in MUT and _is_attr(n_.func.value))]
+                    if writes:
+                        ctx.violate("IDEMP", "C08.idemp.classattr", "class-level mutable container that is written from a method: state shared between "
+                                    "all objects", f"{m.relpath}:{c.name}", f"{an} = {src(av)[:60]}", witness=f"written at line {writes[0].lineno}")
+                    else:
+                        ctx.ok("IDEMP", "C08.idemp.classattr", f"class-level table {c.name}.{an} is never written after its definition", f"{m.relpath}:{c.name}")
     # ------------------------------------------------------------ ORD: iteration order of hash containers
     sites = []
     for fi in funcs:
